@@ -969,6 +969,23 @@ static void execute_run(int out_fd)
       }
     }
 
+    if (fc_ok && g_model.mc_port < 0 && (R.probes & 4))
+    {
+      // a shell without a multi-client port may be final-constructed again (e.g. after being moved to another parent): with
+      // everything still bound it succeeds again and records the parent given THIS time
+      try
+      {
+        const bool use_default = R.parent_mode != 0;   // the other way round than the first call
+        g_model.shell.final_construct(g_shell, &parent_meta, use_default);
+        const dzn::meta* got = g_model.shell.comp_parent(g_comp);
+        const dzn::meta* want = use_default ? nullptr : &parent_meta;
+        rec(std::string("fc_again result=ok parent_ok=") + (got == want ? "1" : "0"));
+      }
+      catch (const std::exception& e)
+      {
+        rec("fc_again result=throw what=" + sanitize(e.what()));
+      }
+    }
     if (fc_ok && g_model.mc_port >= 0 && (R.probes & 1))
     {
       PortDesc& pd = g_model.ports[static_cast<size_t>(g_model.mc_port)];
